@@ -268,6 +268,8 @@ def run(rep: Report) -> None:
     rep.rule("R01.2", "every floor division that flows into a constructor in Dimension.root / Prefix.root / Unit.root "
              "is dominated by a raising exactness test over the same elements", floor=3)
     rep.rule("R01.3", "no module other than measured/__init__.py constructs a Unit with an explicit dimension")
+    rep.rule("R01.7", "the dimension a serialised unit is rebuilt with is decoded from the encoded exponents on every path "
+             "(Unit.__from_json__ passes it to the interning constructor unchecked)", floor=2)
     rep.rule("R01.4", "Unit.__new__ returns the interned object for a known key (first construction fixes the dimension)", armed=False)
     rep.rule("R01.5", "rendering/splitting entry points reach only R01.1-checked construction sites", armed=False)
 
@@ -317,6 +319,9 @@ def run(rep: Report) -> None:
                 rep.fail("R01.1", key, f"dimension is not computed from the operands: {dec[0]}", fi.where(cs.node))
             else:
                 rep.ok("R01.1", key, note=verdicts[0][1])
+    # R01.7: the decoded dimension that Unit.__from_json__ passes on is the encoded one
+    from .c15 import structural_decoding
+    structural_decoding(rep, prog, "R01.7")
     # R01.2
     for q in ("Dimension.root", "Prefix.root", "Unit.root"):
         check_root_guard(rep, prog, resolver, q)
